@@ -536,5 +536,15 @@ func genTxn(t *rapid.T, m *Model, recent []uint32, cfg TxnCfg) TxnSpec {
 			}
 		}
 	}
+	// the body may end by obtaining typed column accessors that it only reads (txn.Int64("limit").Get()):
+	// an accessor allocates the transaction's buffer for that column, which then stays empty
+	if cfg.Peeks && spec.FailAt < 0 && rapid.IntRange(0, 3).Draw(t, "tail-accessors") == 0 {
+		for i := rapid.IntRange(1, 2).Draw(t, "tail-accessors-n"); i > 0; i-- {
+			ci := rapid.IntRange(0, len(m.Sch.Cols)-1).Draw(t, "tail-accessor-col")
+			if m.ColLive[ci] && m.Sch.Cols[ci].Kind != KKey {
+				spec.Touch = append(spec.Touch, ci)
+			}
+		}
+	}
 	return spec
 }
